@@ -53,6 +53,9 @@ def run_case(seed, tier, rec, st):
     from mashumaro.codecs.basic import BasicDecoder, BasicEncoder
     import mashumaro.codecs.basic as basic
     rng = random.Random(seed)
+    if rng.random() < 0.03:
+        common.two_module_generic_case(rng, rec, "cg")
+        return
     fam = Family("c01", future_annotations=rng.random() < 0.2)
     try:
         tg = TypeGen(fam, rng, dc_config_fn=config_fn)
